@@ -1,7 +1,15 @@
 /-
   C03 — Airborne CPR global decode recovers the encoded position.
+
+  `e0 = Spec.cprEncode nl 360 0 lat0 lon0` (even) and `e1 = Spec.cprEncode nl 360 1 lat1 lon1`
+  (odd) are DO-260B encodings of two (possibly different) positions; `e.rlat`, `e.rlon` is the
+  position carried by a frame, `e.yz`, `e.xz` the transmitted fields.  Everything holds for an
+  arbitrary NL function `nl`.  Hypotheses on the carried latitudes: `-90 ≤ e.rlat ≤ 90`, which
+  follows from `-90 ≤ lat ≤ 90` on the encoder's input (`rlat_in_range`).
+  Proofs: `PyModeS/Proofs/CPR/Floor.lean`, `Local.lean`, `Global.lean` (DESIGN.md 11.1).
 -/
 import PyModeS.Model.Adsb
+import PyModeS.Proofs.CPR.Global
 namespace PyModeS.C03
 
 /-- two frames of the same parity are rejected with RuntimeError, whatever the NL function -/
@@ -9,5 +17,137 @@ theorem same_parity_runtimeError (nl : Rat → Nat) (f0 f1 : CprFrame) (t0 t1 : 
     airbornePositionCore nl f0 f1 t0 t1 = .rte := by
   unfold airbornePositionCore
   cases h0 : f0.oe <;> cases h1 : f1.oe <;> simp_all
+
+/-- **arg_order_irrelevant.** Passing (odd, even) instead of (even, odd) gives the same result. -/
+theorem arg_order_irrelevant (nl : ℚ → ℕ) (f0 f1 : CprFrame) (t0 t1 : ℚ)
+    (h0 : f0.oe = false) (h1 : f1.oe = true) :
+    airbornePositionCore nl f1 f0 t1 t0 = airbornePositionCore nl f0 f1 t0 t1 := by
+  unfold airbornePositionCore
+  simp [h0, h1]
+
+/-- the encoder's carried latitude stays in `[-90, 90]` when the input latitude does -/
+theorem rlat_in_range (nl : ℚ → ℕ) (i : ℕ) (hi : i = 0 ∨ i = 1) (lat lon : ℚ)
+    (h : -90 ≤ lat ∧ lat ≤ 90) :
+    -90 ≤ (Spec.cprEncode nl 360 i lat lon).rlat ∧ (Spec.cprEncode nl 360 i lat lon).rlat ≤ 90 :=
+  CPR.enc_rlat_bounds nl i hi lat lon h
+
+/-- The decoder in terms of its intermediate values: `CPR.latEven f0 f1` / `CPR.latOdd f0 f1` are
+    the code's `lat_even` / `lat_odd` after the `≥ 270 → −360` wrap (functions of the two YZ fields
+    only), `CPR.lonRaw 360 n i …` its longitude before the `> 180 → −360` wrap (`CPR.wrap180`). -/
+theorem decode_unfold (nl : ℚ → ℕ) (f0 f1 : CprFrame) (t0 t1 : ℚ)
+    (h0 : f0.oe = false) (h1 : f1.oe = true) :
+    airbornePositionCore nl f0 f1 t0 t1 =
+      if nl (CPR.latEven f0 f1) ≠ nl (CPR.latOdd f0 f1) then .val none
+      else .val (some (
+        if t0 > t1 then
+          (CPR.latEven f0 f1,
+            CPR.wrap180 (CPR.lonRaw 360 (nl (CPR.latEven f0 f1)) 0 f0.lon f1.lon f0.lon))
+        else
+          (CPR.latOdd f0 f1,
+            CPR.wrap180 (CPR.lonRaw 360 (nl (CPR.latOdd f0 f1)) 1 f0.lon f1.lon f1.lon)))) :=
+  CPR.airborne_eq nl f0 f1 t0 t1 h0 h1
+
+/-- **global_lat.** If the two carried latitudes differ by less than 3/59° (half an even/odd zone
+    offset) the decoder's `lat_even` and `lat_odd` are exactly the carried latitudes — southern
+    latitudes come out as `x + 360` and are restored by the `≥ 270` wrap. -/
+theorem global_lat (nl : ℚ → ℕ) (lat0 lon0 lat1 lon1 : ℚ) (e0 e1 : Spec.Enc)
+    (he0 : e0 = Spec.cprEncode nl 360 0 lat0 lon0) (he1 : e1 = Spec.cprEncode nl 360 1 lat1 lon1)
+    (hr0 : -90 ≤ e0.rlat ∧ e0.rlat ≤ 90) (hr1 : -90 ≤ e1.rlat ∧ e1.rlat ≤ 90)
+    (hclose : |e0.rlat - e1.rlat| < 3 / 59) :
+    CPR.latEven ⟨false, e0.yz, e0.xz⟩ ⟨true, e1.yz, e1.xz⟩ = e0.rlat ∧
+    CPR.latOdd ⟨false, e0.yz, e0.xz⟩ ⟨true, e1.yz, e1.xz⟩ = e1.rlat := by
+  subst he0 he1
+  exact CPR.glat_airborne nl lat0 lon0 lat1 lon1 hr0 hr1 hclose
+
+/-- **none_iff_NL_differs.** Under the hypotheses of `global_lat` the decoder returns `None`
+    exactly when the two carried latitudes lie in different NL zones. -/
+theorem none_iff_NL_differs (nl : ℚ → ℕ) (lat0 lon0 lat1 lon1 t0 t1 : ℚ) (e0 e1 : Spec.Enc)
+    (he0 : e0 = Spec.cprEncode nl 360 0 lat0 lon0) (he1 : e1 = Spec.cprEncode nl 360 1 lat1 lon1)
+    (hr0 : -90 ≤ e0.rlat ∧ e0.rlat ≤ 90) (hr1 : -90 ≤ e1.rlat ∧ e1.rlat ≤ 90)
+    (hclose : |e0.rlat - e1.rlat| < 3 / 59) :
+    airbornePositionCore nl ⟨false, e0.yz, e0.xz⟩ ⟨true, e1.yz, e1.xz⟩ t0 t1 = .val none
+      ↔ nl e0.rlat ≠ nl e1.rlat := by
+  obtain ⟨hE, hO⟩ := global_lat nl lat0 lon0 lat1 lon1 e0 e1 he0 he1 hr0 hr1 hclose
+  rw [decode_unfold nl _ _ t0 t1 rfl rfl, hE, hO]
+  by_cases h : nl e0.rlat = nl e1.rlat
+  · simp [h]
+  · simp [h]
+
+/-- **global_decode.** Under the hypotheses of `global_lat`, if both carried latitudes have the
+    same `n = nl rlat` and — when `n ≥ 2` — the carried longitudes differ, modulo 360, by less than
+    half of the even/odd zone offset `360/(n(n−1))`, the decoder returns the position carried by
+    the *newer* frame (`t0 > t1`: the even one, else the odd one): the latitude exactly, the
+    longitude as its representative modulo 360 in `(-180, 180]`. -/
+theorem global_decode (nl : ℚ → ℕ) (lat0 lon0 lat1 lon1 t0 t1 : ℚ) (e0 e1 : Spec.Enc)
+    (he0 : e0 = Spec.cprEncode nl 360 0 lat0 lon0) (he1 : e1 = Spec.cprEncode nl 360 1 lat1 lon1)
+    (hr0 : -90 ≤ e0.rlat ∧ e0.rlat ≤ 90) (hr1 : -90 ≤ e1.rlat ∧ e1.rlat ≤ 90)
+    (hclose : |e0.rlat - e1.rlat| < 3 / 59)
+    (hnl : nl e0.rlat = nl e1.rlat)
+    (hlon : 2 ≤ nl e0.rlat → ∃ s : ℤ,
+      |e0.rlon - e1.rlon - 360 * s| < 180 / ((nl e0.rlat : ℚ) * ((nl e0.rlat : ℚ) - 1))) :
+    ∃ lon : ℚ,
+      airbornePositionCore nl ⟨false, e0.yz, e0.xz⟩ ⟨true, e1.yz, e1.xz⟩ t0 t1
+        = .val (some (if t0 > t1 then e0.rlat else e1.rlat, lon)) ∧
+      (∃ z : ℤ, lon = (if t0 > t1 then e0.rlon else e1.rlon) + 360 * z) ∧
+      -180 < lon ∧ lon ≤ 180 := by
+  obtain ⟨hE, hO⟩ := global_lat nl lat0 lon0 lat1 lon1 e0 e1 he0 he1 hr0 hr1 hclose
+  rw [decode_unfold nl _ _ t0 t1 rfl rfl, hE, hO, if_neg (not_not.mpr hnl)]
+  subst he0 he1
+  have hlon' : 2 ≤ nl (Spec.cprEncode nl 360 0 lat0 lon0).rlat → ∃ s : ℤ,
+      |(Spec.cprEncode nl 360 0 lat0 lon0).rlon - (Spec.cprEncode nl 360 1 lat1 lon1).rlon - 360 * s|
+        < 360 / 2 / ((nl (Spec.cprEncode nl 360 0 lat0 lon0).rlat : ℚ)
+            * ((nl (Spec.cprEncode nl 360 0 lat0 lon0).rlat : ℚ) - 1)) := by
+    intro h2
+    obtain ⟨s, hs⟩ := hlon h2
+    exact ⟨s, by norm_num at hs ⊢; exact hs⟩
+  obtain ⟨⟨z0, hz0⟩, ⟨z1, hz1⟩⟩ := CPR.glon_raw nl 360 (by norm_num) lat0 lon0 lat1 lon1
+    (nl (Spec.cprEncode nl 360 0 lat0 lon0).rlat) rfl hnl.symm hlon'
+  by_cases ht : t0 > t1
+  · simp only [ht, if_true]
+    obtain ⟨⟨z, hz⟩, hlo, hhi⟩ := CPR.wrap180_spec _
+      (CPR.lonRaw_range 360 (by norm_num) (nl (Spec.cprEncode nl 360 0 lat0 lon0).rlat) 0
+        (Spec.cprEncode nl 360 0 lat0 lon0).xz (Spec.cprEncode nl 360 1 lat1 lon1).xz
+        (Spec.cprEncode nl 360 0 lat0 lon0).xz (CPR.enc_xz_range nl 360 0 lat0 lon0))
+    refine ⟨_, rfl, ⟨z0 + z, ?_⟩, hlo, hhi⟩
+    rw [hz, hz0]; push_cast; ring
+  · simp only [ht, if_false]
+    rw [← hnl]
+    obtain ⟨⟨z, hz⟩, hlo, hhi⟩ := CPR.wrap180_spec _
+      (CPR.lonRaw_range 360 (by norm_num) (nl (Spec.cprEncode nl 360 0 lat0 lon0).rlat) 1
+        (Spec.cprEncode nl 360 0 lat0 lon0).xz (Spec.cprEncode nl 360 1 lat1 lon1).xz
+        (Spec.cprEncode nl 360 1 lat1 lon1).xz (CPR.enc_xz_range nl 360 1 lat1 lon1))
+    refine ⟨_, rfl, ⟨z1 + z, ?_⟩, hlo, hhi⟩
+    rw [hz, hz1]; push_cast; ring
+
+/-! ### the hypotheses are satisfiable (`nl = cprNL`)
+
+  Even frame at (52.2572, 3.91937) — fields 93000 / 51372 as in the pyModeS test vector
+  `8D40621D58C382D690C8AC2863A7` — and an odd frame a little further at (52.2580, 3.91900). -/
+
+example :
+    let e0 := Spec.cprEncode cprNL 360 0 (522572 / 10000) (391937 / 100000)
+    let e1 := Spec.cprEncode cprNL 360 1 (522580 / 10000) (391900 / 100000)
+    (e0.yz, e0.xz, e1.yz, e1.xz) = (93000, 51372, 73991, 49940) ∧
+    (-90 ≤ e0.rlat ∧ e0.rlat ≤ 90) ∧ (-90 ≤ e1.rlat ∧ e1.rlat ≤ 90) ∧
+    |e0.rlat - e1.rlat| < 3 / 59 ∧ cprNL e0.rlat = 36 ∧ cprNL e1.rlat = 36 ∧
+    |e0.rlon - e1.rlon - 360 * (0 : ℤ)| < 180 / ((cprNL e0.rlat : ℚ) * ((cprNL e0.rlat : ℚ) - 1)) ∧
+    airbornePositionCore cprNL ⟨false, e0.yz, e0.xz⟩ ⟨true, e1.yz, e1.xz⟩ 1 0
+      = .val (some (e0.rlat, e0.rlon)) ∧
+    airbornePositionCore cprNL ⟨false, e0.yz, e0.xz⟩ ⟨true, e1.yz, e1.xz⟩ 0 1
+      = .val (some (e1.rlat, e1.rlon)) := by
+  decide +kernel
+
+/-- southern hemisphere (the `≥ 270` wrap) and longitude 200° (returned as `rlon − 360`) -/
+example :
+    let e0 := Spec.cprEncode cprNL 360 0 (-339461 / 10000) 200
+    let e1 := Spec.cprEncode cprNL 360 1 (-339470 / 10000) (2000010 / 10000)
+    (-90 ≤ e0.rlat ∧ e0.rlat ≤ 90) ∧ (-90 ≤ e1.rlat ∧ e1.rlat ≤ 90) ∧
+    |e0.rlat - e1.rlat| < 3 / 59 ∧ cprNL e0.rlat = 49 ∧ cprNL e1.rlat = 49 ∧
+    |e0.rlon - e1.rlon - 360 * (0 : ℤ)| < 180 / ((cprNL e0.rlat : ℚ) * ((cprNL e0.rlat : ℚ) - 1)) ∧
+    airbornePositionCore cprNL ⟨false, e0.yz, e0.xz⟩ ⟨true, e1.yz, e1.xz⟩ 1 0
+      = .val (some (e0.rlat, e0.rlon + 360 * (-1 : ℤ))) ∧
+    airbornePositionCore cprNL ⟨false, e0.yz, e0.xz⟩ ⟨true, e1.yz, e1.xz⟩ 0 1
+      = .val (some (e1.rlat, e1.rlon + 360 * (-1 : ℤ))) := by
+  decide +kernel
 
 end PyModeS.C03
